@@ -1,1 +1,587 @@
-// harness module for C20 (not written yet)
+// Verification harness for C20 (kernel FIB requests and next-hop tracking stay in
+// step with the RIB).  Compiled into rustybgpd's unit-test binary only with
+// `--cfg osrg_rustybgp_verif --cfg verif_c20|verif_all`; child module of
+// `crate::event::verif_event`.
+//
+// A case (lean/Rbgp/Fib/Codec.lean syntax) is a history of route insert / replace /
+// remove / peer drop / GR stale + purge / soft reset IN / import-policy change /
+// next-hop reachability report.  It is run against a real `TableManager` (2 shards)
+// with a `KernelHandle` installed whose request stream is read back through the
+// cfg-guarded hook `rustybgp_kernel::verif`.  One observation line per case:
+//   (trace (step (fib (<table> <fam> <id> (<nh>...))...) (nht (r <a>)|(u <a>)...)
+//                (rib (d <fam> <id> (p <src> <pid> <nh> <flt> <stale> <lp> <eb> <cl> <rid> (<rt>...))...)...))...)
+// `(svc ...)` cases drive the real `run_service_loop` (refcount map `watched`) with
+// register/unregister requests only and observe the NexthopUpdate emissions.
+#![allow(dead_code)]
+
+use std::net::{IpAddr, Ipv4Addr, Ipv6Addr};
+use std::sync::Arc;
+
+use rustybgp_kernel as kernel;
+use rustybgp_packet::{self as packet, Family, bgp};
+use rustybgp_table as table;
+
+use crate::table_manager::TableManager;
+
+#[path = "/verif/harness/common/sexp.rs"]
+mod sexp;
+use sexp::Term;
+
+const SRC_LOCAL: u64 = 100;
+const SRC_KERNEL: u64 = 101;
+const FAMS: [Family; 3] = [Family::IPV4, Family::IPV6, Family::IPV4_VPN];
+
+// ---------------------------------------------------------------- encodings
+fn addr_of(a: u64) -> Option<IpAddr> {
+    if a < 100 {
+        Some(IpAddr::V4(Ipv4Addr::new(192, 0, 2, a as u8)))
+    } else if a < 200 {
+        Some(IpAddr::V6(Ipv6Addr::new(0x2001, 0xdb8, 0xffff, 0, 0, 0, 0, (a - 100) as u16)))
+    } else {
+        None
+    }
+}
+fn addr_id(a: &IpAddr) -> u64 {
+    match a {
+        IpAddr::V4(v) => {
+            let o = v.octets();
+            if o[0] == 192 && o[1] == 0 && o[2] == 2 { o[3] as u64 } else { 999 }
+        }
+        IpAddr::V6(v) => {
+            let s = v.segments();
+            if s[0] == 0x2001 && s[1] == 0xdb8 && s[2] == 0xffff { 100 + s[7] as u64 } else { 999 }
+        }
+    }
+}
+fn nexthop_of(a: u64) -> Option<bgp::Nexthop> {
+    Some(match addr_of(a)? {
+        IpAddr::V4(v) => bgp::Nexthop::V4(v),
+        IpAddr::V6(v) => bgp::Nexthop::V6(v),
+    })
+}
+fn family_of(f: u64) -> Option<Family> {
+    match f {
+        0 => Some(Family::IPV4),
+        1 => Some(Family::IPV6),
+        2 => Some(Family::IPV4_VPN),
+        _ => None,
+    }
+}
+fn nlri_of(f: u64, id: u64) -> Option<packet::Nlri> {
+    if id > 250 {
+        return None;
+    }
+    let v4 = bgp::Ipv4Net { addr: Ipv4Addr::new(10, id as u8, 0, 0), mask: 16 };
+    match f {
+        0 => Some(packet::Nlri::V4(v4)),
+        1 => Some(packet::Nlri::V6(bgp::Ipv6Net {
+            addr: Ipv6Addr::new(0x2001, 0xdb8, id as u16, 0, 0, 0, 0, 0),
+            mask: 48,
+        })),
+        2 => Some(packet::Nlri::VpnV4(packet::vpn::VpnV4Nlri {
+            labels: packet::mpls::MplsLabelStack::new(vec![packet::mpls::MplsLabel::new(100 + id as u32)]),
+            rd: packet::rd::RouteDistinguisher::TwoOctetAs { admin: 65000, assigned: id as u32 + 1 },
+            prefix: v4,
+        })),
+        _ => None,
+    }
+}
+fn nlri_id(n: &packet::Nlri) -> (u64, u64) {
+    match n {
+        packet::Nlri::V4(n) => (0, n.addr.octets()[1] as u64),
+        packet::Nlri::V6(n) => (1, n.addr.segments()[2] as u64),
+        packet::Nlri::VpnV4(n) => (2, n.prefix.addr.octets()[1] as u64),
+        _ => (9, 0),
+    }
+}
+fn rt_bytes(r: u64) -> [u8; 8] {
+    [0x00, 0x02, 0xfd, 0xe8, 0, 0, (r >> 8) as u8, r as u8]
+}
+fn peer_addr(k: u64) -> IpAddr {
+    IpAddr::V4(Ipv4Addr::new(10, 0, 0, (k + 1) as u8))
+}
+
+fn build_attrs(lp: u64, cl: u64, rts: &[u64]) -> Arc<Vec<packet::Attribute>> {
+    let mut v = Vec::new();
+    if lp != 100 {
+        v.push(packet::Attribute::new_with_value(packet::Attribute::LOCAL_PREF, lp as u32).unwrap());
+    }
+    if cl > 0 {
+        let mut b = Vec::new();
+        for i in 0..cl {
+            b.extend_from_slice(&[1, 1, 1, i as u8 + 1]);
+        }
+        v.push(packet::Attribute::new_with_bin(packet::Attribute::CLUSTER_LIST, b).unwrap());
+    }
+    if !rts.is_empty() {
+        let mut b = Vec::new();
+        for r in rts {
+            b.extend_from_slice(&rt_bytes(*r));
+        }
+        v.push(packet::Attribute::new_with_bin(packet::Attribute::EXTENDED_COMMUNITY, b).unwrap());
+    }
+    Arc::new(v)
+}
+
+// ---------------------------------------------------------------- case
+struct Rule {
+    cond: Cond,
+    act: Act,
+}
+enum Cond {
+    Any,
+    Peer(u64),
+    Nh(u64),
+}
+enum Act {
+    Set(u64),
+    Rej,
+    Acc,
+}
+
+fn nats(ts: &[Term]) -> Option<Vec<u64>> {
+    ts.iter().map(|t| t.as_u64()).collect()
+}
+
+fn parse_rule(t: &Term) -> Option<Rule> {
+    let [c, a] = t.tagged("rule")? else { return None };
+    let cond = match c.head()? {
+        "any" if c.as_atom().is_some() => Cond::Any,
+        "peer" => match c.tagged("peer")? {
+            [k] => Cond::Peer(k.as_u64().filter(|k| *k < 8)?),
+            _ => return None,
+        },
+        "nh" => match c.tagged("nh")? {
+            [a] => Cond::Nh(a.as_u64()?),
+            _ => return None,
+        },
+        _ => return None,
+    };
+    let act = match a.head()? {
+        "rej" if a.as_atom().is_some() => Act::Rej,
+        "acc" if a.as_atom().is_some() => Act::Acc,
+        "set" => match a.tagged("set")? {
+            [x] => Act::Set(x.as_u64()?),
+            _ => return None,
+        },
+        _ => return None,
+    };
+    Some(Rule { cond, act })
+}
+
+fn build_policy(rules: &[Rule]) -> Option<Arc<table::PolicyAssignment>> {
+    let mut stmts = Vec::new();
+    for (i, r) in rules.iter().enumerate() {
+        let conditions = match r.cond {
+            Cond::Any => vec![],
+            Cond::Peer(k) => vec![table::Condition::Neighbor(
+                "n".to_string(),
+                table::MatchOption::Any,
+                Arc::new(table::NeighborSet { sets: vec![packet::IpNet::new(peer_addr(k), 32)] }),
+            )],
+            Cond::Nh(a) => vec![table::Condition::Nexthop(vec![addr_of(a)?])],
+        };
+        let (disposition, nexthop) = match r.act {
+            Act::Set(a) => (table::Disposition::Accept, Some(table::NexthopAction::Address(addr_of(a)?))),
+            Act::Rej => (table::Disposition::Reject, None),
+            Act::Acc => (table::Disposition::Accept, None),
+        };
+        stmts.push(Arc::new(table::Statement {
+            name: Arc::from(format!("s{i}")),
+            conditions,
+            disposition: Some(disposition),
+            actions: table::Actions { nexthop, ..Default::default() },
+        }));
+    }
+    Some(Arc::new(table::PolicyAssignment {
+        name: Arc::from("verif"),
+        disposition: table::Disposition::Accept,
+        policies: vec![Arc::new(table::Policy { name: Arc::from("p"), statements: stmts })],
+        needs_rpki: false,
+    }))
+}
+
+struct World {
+    tables: TableManager,
+    rx: kernel::verif::RequestReceiver,
+    rids: Vec<u32>,
+    cur: Vec<Arc<table::Source>>,
+}
+
+impl World {
+    fn new_source(k: usize, rid: u32) -> Arc<table::Source> {
+        Arc::new(table::Source::new(
+            peer_addr(k as u64),
+            IpAddr::V4(Ipv4Addr::new(10, 0, 0, 254)),
+            65010 + k as u32,
+            65001,
+            Ipv4Addr::from(rid),
+            table::PeerRole::Ebgp,
+        ))
+    }
+
+    fn drain(&mut self) -> (Vec<(u64, u64, u64, Vec<u64>)>, Vec<(u64, u64)>) {
+        let mut fib = Vec::new();
+        let mut nht = Vec::new();
+        while let Some(r) = self.rx.try_recv() {
+            match r {
+                kernel::verif::RequestMirror::Apply(c) => {
+                    let (f, id) = nlri_id(&c.net);
+                    fib.push((
+                        c.table_id.unwrap_or(0) as u64,
+                        f,
+                        id,
+                        c.nexthops.iter().map(|n| addr_id(&n.addr())).collect(),
+                    ));
+                }
+                kernel::verif::RequestMirror::RegisterNexthop(a) => nht.push((addr_id(&a), 0)),
+                kernel::verif::RequestMirror::UnregisterNexthop(a) => nht.push((addr_id(&a), 1)),
+                kernel::verif::RequestMirror::CreateVrf { .. } | kernel::verif::RequestMirror::DeleteVrf { .. } => {}
+            }
+        }
+        // canonical order (hash-map iteration order of shards/destinations/VRFs is not modelled):
+        // stable by (table, prefix) resp. by (address, register-before-unregister)
+        fib.sort_by(|a, b| (a.0, a.1, a.2).cmp(&(b.0, b.1, b.2)));
+        nht.sort();
+        (fib, nht)
+    }
+
+    fn snapshot(&self) -> Term {
+        let mut dests: Vec<((u64, u64), Term)> = Vec::new();
+        for fam in FAMS {
+            for shard in &self.tables.shards {
+                let t = shard.lock().unwrap();
+                for d in t.rtable.destinations(table::TableQuery::Global, fam, vec![], true) {
+                    let (f, id) = nlri_id(&d.net);
+                    let mut ps = vec![Term::atom("d"), Term::nat(f), Term::nat(id)];
+                    for p in &d.paths {
+                        let src = if p.source.is_local() {
+                            SRC_LOCAL
+                        } else if p.source.is_kernel() {
+                            SRC_KERNEL
+                        } else {
+                            match p.source.remote_addr {
+                                IpAddr::V4(v) => v.octets()[3] as u64 - 1,
+                                _ => 999,
+                            }
+                        };
+                        let nh = t
+                            .rtable
+                            .lookup_nexthop(p.source.remote_addr, fam, &d.net, p.remote_path_id)
+                            .map(|n| addr_id(&n.addr()))
+                            .unwrap_or(998);
+                        let lp = p
+                            .attr
+                            .iter()
+                            .find(|a| a.code() == packet::Attribute::LOCAL_PREF)
+                            .and_then(|a| a.value())
+                            .unwrap_or(100);
+                        let cl = p
+                            .attr
+                            .iter()
+                            .find(|a| a.code() == packet::Attribute::CLUSTER_LIST)
+                            .and_then(|a| a.binary())
+                            .map(|b| b.len() / 4)
+                            .unwrap_or(0);
+                        let mut rts = Vec::new();
+                        for a in p.attr.iter() {
+                            if a.code() == packet::Attribute::EXTENDED_COMMUNITY
+                                && let Some(b) = a.binary()
+                            {
+                                for c in b.chunks_exact(8) {
+                                    rts.push(Term::nat(((c[6] as u32) << 8) | c[7] as u32));
+                                }
+                            }
+                        }
+                        let eb = matches!(p.source.role, table::PeerRole::Ebgp | table::PeerRole::RsClient);
+                        ps.push(Term::tag(
+                            "p",
+                            vec![
+                                Term::nat(src),
+                                Term::nat(p.remote_path_id),
+                                Term::nat(nh),
+                                Term::boolean(p.filtered),
+                                Term::boolean(p.stale),
+                                Term::nat(lp),
+                                Term::boolean(eb),
+                                Term::nat(cl as u64),
+                                Term::nat(p.source.router_id),
+                                Term::list(rts),
+                            ],
+                        ));
+                    }
+                    dests.push(((f, id), Term::list(ps)));
+                }
+            }
+        }
+        dests.sort_by(|a, b| a.0.cmp(&b.0));
+        Term::tag("rib", dests.into_iter().map(|d| d.1).collect())
+    }
+
+    fn source_for(&self, src: u64) -> Option<Arc<table::Source>> {
+        if src == SRC_LOCAL {
+            Some(table::Source::local())
+        } else if src == SRC_KERNEL {
+            Some(table::Source::kernel())
+        } else {
+            self.cur.get(src as usize).cloned()
+        }
+    }
+
+    /// Returns None for an ill-formed op.
+    fn op(&mut self, t: &Term) -> Option<()> {
+        match t.head()? {
+            "ins" => {
+                let [src, f, id, pid, nh, lp, cl, rts] = t.tagged("ins")? else { return None };
+                let (src, f, id, pid, nh, lp, cl) =
+                    (src.as_u64()?, f.as_u64()?, id.as_u64()?, pid.as_u64()?, nh.as_u64()?, lp.as_u64()?, cl.as_u64()?);
+                let rts = nats(rts.as_list()?)?;
+                if lp > 1000 || cl > 1 || pid > 1000 || rts.iter().any(|r| *r > 1000) {
+                    return None;
+                }
+                let source = self.source_for(src)?;
+                let fam = family_of(f)?;
+                let net = packet::PathNlri { nlri: nlri_of(f, id)?, path_id: pid as u32 };
+                self.tables.insert_route(source, fam, net, Some(nexthop_of(nh)?), build_attrs(lp, cl, &rts), None, 0);
+            }
+            "rm" => {
+                let [src, f, id, pid] = t.tagged("rm")? else { return None };
+                let (src, f, id, pid) = (src.as_u64()?, f.as_u64()?, id.as_u64()?, pid.as_u64()?);
+                if pid > 1000 {
+                    return None;
+                }
+                let source = self.source_for(src)?;
+                let fam = family_of(f)?;
+                let net = packet::PathNlri { nlri: nlri_of(f, id)?, path_id: pid as u32 };
+                self.tables.remove_route(source, fam, net, None, 0);
+            }
+            "down" => {
+                let [k] = t.tagged("down")? else { return None };
+                let k = k.as_u64()? as usize;
+                if k >= self.cur.len() {
+                    return None;
+                }
+                self.tables.unregister_peer(peer_addr(k as u64), &FAMS, &[]);
+                self.cur[k] = World::new_source(k, self.rids[k]);
+            }
+            "stale" => {
+                let [k] = t.tagged("stale")? else { return None };
+                let k = k.as_u64()? as usize;
+                if k >= self.cur.len() {
+                    return None;
+                }
+                self.tables.unregister_peer(peer_addr(k as u64), &[], &FAMS);
+                self.cur[k] = World::new_source(k, self.rids[k]);
+            }
+            "purge" => {
+                let [k] = t.tagged("purge")? else { return None };
+                let k = k.as_u64()? as usize;
+                if k >= self.cur.len() {
+                    return None;
+                }
+                self.tables.drop_stale_families(peer_addr(k as u64), &FAMS);
+            }
+            "soft" => {
+                let [k] = t.tagged("soft")? else { return None };
+                let k = k.as_u64()? as usize;
+                if k >= self.cur.len() {
+                    return None;
+                }
+                self.tables.soft_reset_in(peer_addr(k as u64));
+            }
+            "pol" => {
+                let rules: Option<Vec<Rule>> = t.tagged("pol")?.iter().map(parse_rule).collect();
+                let rules = rules?;
+                if rules.is_empty() {
+                    self.tables.import_policy.store(None);
+                } else {
+                    self.tables.import_policy.store(Some(build_policy(&rules)?));
+                }
+            }
+            "nh" => {
+                let [a, r] = t.tagged("nh")? else { return None };
+                self.tables.update_nexthop_validity(addr_of(a.as_u64()?)?, r.as_bool()?);
+            }
+            _ => return None,
+        }
+        Some(())
+    }
+}
+
+fn run_case(line: &str) -> Option<String> {
+    let t = Term::parse(line)?;
+    if let Some(reqs) = t.tagged("svc") {
+        return run_svc(reqs);
+    }
+    let [peers, vrfs, ops] = t.tagged("case")? else { return None };
+    let rids = nats(peers.tagged("peers")?)?;
+    if rids.is_empty() || rids.len() > 8 || rids.iter().any(|r| *r > u32::MAX as u64) {
+        return None;
+    }
+    let tables = TableManager::new(2);
+    for (i, v) in vrfs.tagged("vrfs")?.iter().enumerate() {
+        let l = nats(v.as_list()?)?;
+        let (tid, rts) = l.split_first()?;
+        if *tid > 100000 || rts.iter().any(|r| *r > 1000) {
+            return None;
+        }
+        tables
+            .add_vrf(
+                format!("v{i}"),
+                packet::rd::RouteDistinguisher::TwoOctetAs { admin: 65000, assigned: 1000 + i as u32 },
+                rts.iter().map(|r| rt_bytes(*r)).collect(),
+                vec![],
+                *tid as u32,
+            )
+            .ok()?;
+    }
+    let (handle, rx) = kernel::verif::handle_with_receiver();
+    tables.kernel_handle.store(Some(Arc::new(handle)));
+    let cur = rids.iter().enumerate().map(|(k, r)| World::new_source(k, *r as u32)).collect();
+    let mut w = World { tables, rx, rids: rids.iter().map(|r| *r as u32).collect(), cur };
+    let mut steps = Vec::new();
+    for o in ops.tagged("ops")? {
+        w.op(o)?;
+        let (fib, nht) = w.drain();
+        steps.push(Term::tag(
+            "step",
+            vec![
+                Term::tag(
+                    "fib",
+                    fib.into_iter()
+                        .map(|(t, f, id, nhs)| {
+                            Term::list(vec![
+                                Term::nat(t),
+                                Term::nat(f),
+                                Term::nat(id),
+                                Term::list(nhs.into_iter().map(Term::nat).collect()),
+                            ])
+                        })
+                        .collect(),
+                ),
+                Term::tag(
+                    "nht",
+                    nht.into_iter()
+                        .map(|(a, k)| Term::list(vec![Term::atom(if k == 0 { "r" } else { "u" }), Term::nat(a)]))
+                        .collect(),
+                ),
+                w.snapshot(),
+            ],
+        ));
+    }
+    Some(Term::tag("trace", steps).to_string())
+}
+
+// ---------------------------------------------------------------- service loop
+// Drives the real `run_service_loop` (kernel/src/lib.rs) with register/unregister requests.
+// Each request is followed by register+unregister of a sentinel address that is never
+// otherwise used: the sentinel's registration always finds count 0 and therefore always
+// emits a NexthopUpdate, which marks the end of the events caused by the request.
+thread_local! {
+    static RT: tokio::runtime::Runtime =
+        tokio::runtime::Builder::new_current_thread().enable_all().build().unwrap();
+}
+
+fn run_svc(reqs: &[Term]) -> Option<String> {
+    let mut parsed = Vec::new();
+    for r in reqs {
+        let [k, a] = r.as_list()? else { return None };
+        let a = a.as_u64()?;
+        if a >= 90 {
+            return None;
+        }
+        match k.as_atom()? {
+            "r" => parsed.push((true, a)),
+            "u" => parsed.push((false, a)),
+            _ => return None,
+        }
+    }
+    Some(RT.with(|rt| rt.block_on(svc_async(parsed))))
+}
+
+type EvRx = tokio::sync::mpsc::UnboundedReceiver<kernel::KernelEvent>;
+
+/// Send one request followed by the sentinel pair; returns whether the request itself
+/// caused a NexthopUpdate emission (None on timeout).
+async fn svc_send(handle: &kernel::KernelHandle, erx: &mut EvRx, reg: bool, a: u64) -> Option<bool> {
+    let addr = addr_of(a).unwrap();
+    let sentinel = addr_of(99).unwrap();
+    if reg {
+        handle.register_nexthop(addr);
+    } else {
+        handle.unregister_nexthop(addr);
+    }
+    handle.register_nexthop(sentinel);
+    handle.unregister_nexthop(sentinel);
+    let mut emitted = false;
+    loop {
+        let ev = tokio::time::timeout(std::time::Duration::from_secs(5), erx.recv()).await.ok()??;
+        if let kernel::KernelEvent::NexthopUpdate { addr: e, .. } = ev {
+            if e == sentinel {
+                return Some(emitted);
+            }
+            emitted = true;
+        }
+    }
+}
+
+async fn svc_async(parsed: Vec<(bool, u64)>) -> String {
+    let (etx, mut erx) = tokio::sync::mpsc::unbounded_channel();
+    let (handle, task) = match kernel::verif::spawn_service_loop(etx) {
+        Ok(x) => x,
+        Err(_) => return "(svc-no-netlink)".to_string(),
+    };
+    let r = svc_body(&handle, &mut erx, parsed).await;
+    task.abort();
+    r.unwrap_or_else(|| "(svc-timeout)".to_string())
+}
+
+async fn svc_body(handle: &kernel::KernelHandle, erx: &mut EvRx, parsed: Vec<(bool, u64)>) -> Option<String> {
+    let mut emits = Vec::new();
+    for (reg, a) in parsed.iter().copied() {
+        emits.push(Term::boolean(svc_send(handle, erx, reg, a).await?));
+    }
+    // measure the final count c of every address that occurred:
+    //   register            -> emits iff c = 0; the count is now n = c + 1
+    //   [unregister,register] emits iff n <= 1; otherwise unregister once more (n -= 1) and repeat;
+    //   the number of such decrements until the emission is c.
+    let mut addrs: Vec<u64> = parsed.iter().map(|p| p.1).collect();
+    addrs.sort();
+    addrs.dedup();
+    let mut finals = Vec::new();
+    for a in addrs {
+        let mut count = 0u64;
+        if !svc_send(handle, erx, true, a).await? {
+            loop {
+                svc_send(handle, erx, false, a).await?;
+                if svc_send(handle, erx, true, a).await? {
+                    break;
+                }
+                svc_send(handle, erx, false, a).await?;
+                count += 1;
+                if count > 10_000 {
+                    return None;
+                }
+            }
+        }
+        finals.push(Term::list(vec![Term::nat(a), Term::nat(count)]));
+    }
+    Some(Term::tag("svc-trace", vec![Term::tag("emit", emits), Term::tag("final", finals)]).to_string())
+}
+
+#[test]
+fn verif_main() {
+    let (Ok(prop), Ok(inp), Ok(out)) =
+        (std::env::var("VERIF_PROP"), std::env::var("VERIF_IN"), std::env::var("VERIF_OUT"))
+    else {
+        return; // not invoked by /verif/check
+    };
+    if prop != "C20" {
+        return;
+    }
+    sexp::run_lines(&inp, &out, |l| {
+        let l = l.to_string();
+        std::panic::catch_unwind(move || run_case(&l).unwrap_or_else(|| "(bad-case)".into()))
+            .unwrap_or_else(|_| "(panic)".into())
+    });
+}
